@@ -20,6 +20,9 @@ Bits(S) == BitsUpTo(S, 12)
 \* members in declaration order
 InOrder(S) == SelectSeq(EffOrder, LAMBDA e : e \in S)
 
+\* what an iterator over the set still has to yield after k calls of next()
+IterLeft(a, k) == LET n == Cardinality(SetOf(a)) IN IF k >= n THEN 0 ELSE n - k
+
 \* expected result of a binary operation on effect sets (as bits)
 BinOp(op, a, b) ==
   CASE op = "insert" -> Bits(SetOf(a) \cup SetOf(b))
